@@ -989,6 +989,70 @@ func (ct c11Contract) holds(f *File) bool {
 	return ok && calls > 0
 }
 
+// C11Site is one constant index site as the correspondence harness needs it for the self-check of the extractor:
+// where it is, which index it uses and under which sub-block keywords (`case "kw":` clauses around it) it sits.
+type C11Site struct {
+	File     string
+	Line     int
+	Var      string
+	K        int      // the index that must be < len(Var)
+	Keywords []string // string literals of the nearest enclosing case clause ("" = directive level)
+}
+
+// C11Sites lists the index sites of the anchored files (same walk as the obligations).
+func C11Sites(repo string) ([]C11Site, error) {
+	var out []C11Site
+	for _, rel := range c11Files {
+		f, err := Parse(filepath.Join(repo, rel))
+		if err != nil {
+			return nil, err
+		}
+		a := &c11An{fset: f.fset, file: rel, arrays: map[string]bool{}, counts: map[string][2]string{}}
+		c11Counts = a.counts
+		a.noteArrayDecls(f.f)
+		for _, d := range f.f.Decls {
+			if fd, ok := d.(*ast.FuncDecl); ok && fd.Body != nil {
+				a.block(fd.Body.List, nil)
+			}
+		}
+		// nearest enclosing case clause with string literals, by position
+		type span struct {
+			from, to token.Pos
+			kws      []string
+		}
+		var spans []span
+		ast.Inspect(f.f, func(n ast.Node) bool {
+			if cc, ok := n.(*ast.CaseClause); ok {
+				var kws []string
+				for _, e := range cc.List {
+					if s, ok := StringLit(e); ok {
+						kws = append(kws, s)
+					}
+				}
+				if len(kws) > 0 {
+					spans = append(spans, span{cc.Pos(), cc.End(), kws})
+				}
+			}
+			return true
+		})
+		for _, st := range a.sites {
+			k, _ := strconv.Atoi(st.k)
+			site := C11Site{File: rel, Line: st.line, Var: st.v, K: k}
+			best := token.Pos(0)
+			for _, sp := range spans {
+				p := f.fset.Position(sp.from)
+				q := f.fset.Position(sp.to)
+				if (p.Line < st.line || (p.Line == st.line && p.Column <= st.col)) && (st.line < q.Line || (st.line == q.Line && st.col <= q.Column)) && sp.from >= best {
+					best = sp.from
+					site.Keywords = sp.kws
+				}
+			}
+			out = append(out, site)
+		}
+	}
+	return out, nil
+}
+
 func init() {
 	register("C11", func(repo string, o *Out) error {
 		var sites []c11Site
